@@ -605,6 +605,25 @@ class PyExec:
         if isinstance(n, ast.Expr):
             if isinstance(n.value, ast.Constant):
                 return [(st, "normal", None, env)]
+            if self.split and isinstance(n.value, ast.Call):
+                # a call in statement position: every returning path of the callee continues separately (no merge)
+                c = n.value
+                f = self.eval(st, c.func, env)
+                key = ((f.cls + "." if f.cls else "") + f.node.name) if isinstance(f, Closure) else None
+                if isinstance(f, Closure) and key not in self.hooks and key not in self.abstract \
+                        and not any(isinstance(a, ast.Starred) for a in c.args):
+                    self.cur_env = env
+                    args = [self.eval(st, a, env) for a in c.args]
+                    kwargs = {k.arg: self.eval(st, k.value, env) for k in c.keywords}
+                    outs = self.call_function(st.clone(), f.node, args, kwargs, env=f.env, self_ref=f.self_ref, cls=f.cls)
+                    rets = [o for o in outs if o[1] == "return"]
+                    self.raised = getattr(self, "raised", []) + [o for o in outs if o[1] == "raise"]
+                    if not rets:
+                        raise CheckerError("call never returns normally on the explored paths")
+                    if len(rets) == 1:
+                        st.heap, st.pc, st.writes = rets[0][0].heap, rets[0][0].pc, rets[0][0].writes
+                        return [(st, "normal", None, env)]
+                    return [(o[0], "normal", None, dict(env)) for o in rets]
             self.eval(st, n.value, env)
             return [(st, "normal", None, env)]
         if isinstance(n, ast.Assign):
@@ -1071,6 +1090,8 @@ class PyExec:
         if isinstance(op, (ast.In, ast.NotIn)) and isinstance(b, Ref) and st is not None and isinstance(st.heap[b.id], PList):
             b = list(st.heap[b.id].items)
         if isinstance(op, (ast.Is, ast.IsNot)):
+            if a is not b and a is not None and b is not None and any(isinstance(x, Opaque) and getattr(x, "unknown", False) for x in (a, b)):
+                return Opaque("identity test on a value the model knows nothing about")      # both outcomes are explored
             r = (a is b) or (a is None and b is None)
             if is_sym(a) or is_sym(b):
                 r = False if (a is None or b is None) else None
@@ -1120,7 +1141,9 @@ class PyExec:
 
     def opaque(self, node, why):
         self.abstracted.append("%s line %s: %s" % (self.mod.relpath, getattr(node, "lineno", "?"), why))
-        return Opaque(why)
+        o = Opaque(why)
+        o.unknown = True          # a value the model knows nothing about (it may be identical to any other object)
+        return o
 
     def binop(self, st, op, a, b, node):
         if isinstance(a, SymArr) or isinstance(b, SymArr):
@@ -1477,10 +1500,10 @@ class PyExec:
             m = self.merge([(o[0], {"__r": o[2]}) for o in rets])
             if m is None:
                 raise CheckerError("call with %d return paths that cannot be merged" % len(rets))
-            st.heap, st.pc = m[0].heap, m[0].pc
+            st.heap, st.pc, st.writes = m[0].heap, m[0].pc, m[0].writes
             return m[1]["__r"]
         s2, _, v = rets[0]
-        st.heap, st.pc = s2.heap, s2.pc
+        st.heap, st.pc, st.writes = s2.heap, s2.pc, s2.writes
         return v
 
     def call(self, st, n, env):
